@@ -7,6 +7,11 @@ Sub-claims evaluated on the REAL analyzer (auto and cross, all orders, scheduler
   c  XY_emp_dev = sqrt(XY_emp_var)
   d  Gxx_emp_dev (auto) / Gxy_emp_dev (cross) = 2/(fs * sum w^2) * XY_emp_dev, and None for the other mode
   e  XX_mean, YY_mean, XY_M2 expose the raw statistics (segment means of |X_k|^2, |Y_k|^2 and the population variance of Z_k)
+  t  (tight form of a and e) the scatter is the TWO-PASS population variance: against a reference kept in extended precision from the DFT to the
+     squared deviations, |XY_M2 - M2| <= 2 E s + E^2 + (rounding of the reduction, relative to the scatter), E = per-segment rounding budget of the
+     kernels (the |XY| budget of _an.bin_tol), s = sqrt(M2). This budget is proportional to the scatter, not to |mean|^2, so a formula that is
+     algebraically the variance but cancels (E|z|^2 - |E z|^2, error ~ u |mean|^2) is exposed on records whose segments are nearly or exactly
+     identical (phase-locked lines with a noise floor 1e-5 .. 1e-9 or none, periodic waveforms, DC with order -1): generated on every run.
   s  (thorough tier, support only, never decided by theorem) for white Gaussian records with independent segments the empirical deviations
      agree with the analytic ones: ratios recorded in the notes, a violation only for a gross (> factor 3) mismatch.
 """
@@ -39,12 +44,77 @@ ASSUMPTIONS = ["theorems are over the reals for the Lean translation of Spectrum
                "alarms only on a gross (> factor 3) mismatch (measured on the unchanged tree: median ratios 0.87 .. 1.00 over 4 runs)"]
 RULE = ("cases = (auto record kind noise/offset/drift/red/tone/zero/const | pair kind, N, fs, order -1..2, scheduler (4), window, backend numba/numpy, "
         "entry compute_spectrum | compute_single_bin with L incl. L = N); every bin is re-evaluated from its own (f, L, D); distinct by (mode, kind, order, "
-        "scheduler, backend, entry); non-trivial = a bin with K >= 2 and a scatter above its rounding budget")
+        "scheduler, backend, entry); non-trivial = a bin with K >= 2 and a scatter above its rounding budget; PLUS near-identical-segment records "
+        "(line / periodic waveform whose period divides the segment hop of the analysed bin, relative noise floor 0 or 1e-5..1e-9, DC with order -1, "
+        "line at the bin frequency under a high-PSLL Kaiser window) x auto/cross x order -1..2 x numba/numpy x single_bin/compute_spectrum; there "
+        "non-trivial = a bin with K >= 2 whose tight scatter budget is below u*|mean|^2/4 (a cancelling variance formula would be seen)")
 
 NAMES = ["XX_mean", "YY_mean", "XY_M2", "XY_emp_var", "XY_emp_dev", "Gxx_emp_dev", "Gxy_emp_dev"]
 AUTO_KINDS = ["noise", "offset", "drift", "red", "tone", "zero", "const"]
 CROSS_KINDS = ["indep", "mixed", "delayed", "strong", "scaled", "zero-y", "const-x"]
 U = _an.U
+LD = np.longdouble
+LOCK_KINDS = ["locked-tone", "locked-wave", "line", "dc"]
+
+
+def ref_stats(x: np.ndarray, y: Optional[np.ndarray], D, L: int, w: np.ndarray, om: float, order: int):
+    """One bin from its own plan by the definition: direct windowed (detrended) DFT of every segment in extended precision.
+    Returns (XX, YY, XY, M2, a, b) exactly as _an.ref_bin (same operations, segment values rounded to double: used by the budgets of a, e) and the
+    scatter kept in EXTENDED precision throughout (two-pass: mean of the products first, then the mean squared deviation):
+    ext = (mean as complex, M2, sqrt(M2), max |Z_k|)."""
+    n = np.arange(L, dtype=LD)
+    co, si = np.cos(LD(om) * n), np.sin(LD(om) * n)
+    wl = w.astype(LD)
+    Q = _an.poly_basis(L, order) if order >= 1 else None
+
+    def dfts(z: np.ndarray):
+        re, im, raw = np.zeros(len(D), dtype=LD), np.zeros(len(D), dtype=LD), 0.0
+        for k, s in enumerate(D):
+            v = z[s:s + L].astype(LD)
+            if order == 0:
+                v = v - v.mean()
+            elif order >= 1:
+                v = v - Q @ (Q.T @ v)
+            raw = max(raw, float(np.abs(z[s:s + L] * w).sum()))
+            v = v * wl
+            re[k], im[k] = (v * co).sum(), -(v * si).sum()
+        return re, im, raw
+    xr, xi, a = dfts(x)
+    Xs = np.array([complex(float(p), float(q)) for p, q in zip(xr, xi)])
+    if y is None:
+        yr, yi, b = xr, xi, a
+        Z = np.abs(Xs) ** 2 + 0j
+        YY = float(np.mean(np.abs(Xs) ** 2))
+        zr, zi = xr * xr + xi * xi, np.zeros(len(D), dtype=LD)
+    else:
+        yr, yi, b = dfts(y)
+        Ys = np.array([complex(float(p), float(q)) for p, q in zip(yr, yi)])
+        Z = Xs * np.conj(Ys)
+        YY = float(np.mean(np.abs(Ys) ** 2))
+        zr, zi = xr * yr + xi * yi, xi * yr - xr * yi
+    mu = Z.mean()
+    M2 = float(np.mean(np.abs(Z - mu) ** 2)) if len(Z) >= 2 else 0.0
+    mr, mi = zr.mean(), zi.mean()                                    # pass 1
+    dr, di = zr - mr, zi - mi
+    m2x = (dr * dr + di * di).mean() if len(D) >= 2 else LD(0)        # pass 2
+    ext = (complex(float(mr), float(mi)), float(m2x), float(np.sqrt(m2x)), float(np.sqrt((zr * zr + zi * zi).max())))
+    return float(np.mean(np.abs(Xs) ** 2)), YY, complex(mu), M2, a + 1e-300, b + 1e-300, ext
+
+
+def tight_tol(K: int, tXY: float, ext) -> float:
+    """Sound forward budget of the library's two-pass scatter against the extended-precision reference.
+    Per segment the kernels deliver Z^_k = Z_k + e_k with |e_k| <= E_lib = tXY (the per-segment product budget of _an.bin_tol: a, b are suprema over
+    the segments); the reference delivers Z~_k with |Z~_k - Z_k| <= E_ref <= tXY / 1024 (same operation count, unit roundoff 2^-64 instead of 2^-53,
+    no recurrence growth). sqrt(M2) is the l2 norm of the centred vector / sqrt(K), a seminorm, so |s(Z^) - s(Z~)| <= E := E_lib + E_ref and
+    |M2(Z^) - M2(Z~)| <= 2 E s~ + E^2. The two-pass reduction in floating point gives (M2(Z^) + |d|^2)(1 + th): d = rounding error of the mean,
+    |d|^2 <= 2 (K u max|Z^|)^2 (the deviations from the exact mean sum to zero, so an error of the mean enters only squared), |th| <= 8 (K + 8) u
+    (subtraction, two squares, one addition per term and a K-term mean; fused or reassociated evaluation included). Nothing here is proportional to
+    |mean|^2 at first order in u — that is the point of the two-pass formula, and what a cancelling one-pass formula cannot meet."""
+    mu, m2x, sx, zmax = ext
+    E = tXY * (1.0 + 2.0 ** -10)
+    d2 = 4.0 * (K * U * (zmax + E)) ** 2
+    th = 8.0 * (K + 8) * U
+    return 2.0 * E * sx + E * E + d2 + th * ((sx + E) ** 2 + d2)
 
 
 def check_result(P: C.Part, res, x: np.ndarray, y: Optional[np.ndarray], fs: float, opts: Dict[str, Any], kind: str, src: str, rp: Dict[str, Any],
@@ -78,8 +148,9 @@ def check_result(P: C.Part, res, x: np.ndarray, y: Optional[np.ndarray], fs: flo
         K = len(D)
         w, _, s2 = wc.get(L)
         om = 2 * np.pi * float(res.f[j]) / fs
-        XX, YY, XY, M2, a, b = _an.ref_bin(x, y, D, L, w, om, order)
+        XX, YY, XY, M2, a, b, ext = ref_stats(x, y, D, L, w, om, order)
         tXX, tYY, tXY, tM2 = _an.bin_tol(L, om, a, b, order)
+        tT = tight_tol(K, tXY, ext)
         ev, ed, gd = float(A["XY_emp_var"][j]), float(A["XY_emp_dev"][j]), float(A[own][j])
         P.cases += 1
         P.hit("K=1" if K == 1 else ("K=2..4" if K <= 4 else "K>=5"))
@@ -102,6 +173,19 @@ def check_result(P: C.Part, res, x: np.ndarray, y: Optional[np.ndarray], fs: flo
             bad("raw-YY", j, f"YY_mean = {float(A['YY_mean'][j])!r} but mean |Y_k|^2 = {YY!r} (tol {tYY:.3g})")
         if not S.within("e:XY_M2", abs(float(A["XY_M2"][j]) - M2), tM2):
             bad("raw-M2", j, f"XY_M2 = {float(A['XY_M2'][j])!r} but population variance of the segment products = {M2!r} (tol {tM2:.3g})")
+        # t: the scatter against the extended-precision two-pass reference, budget proportional to the scatter (see tight_tol)
+        m2l = float(A["XY_M2"][j])
+        if not S.within("t:XY_M2", abs(m2l - ext[1]), tT):
+            bad("tight-M2", j, f"XY_M2 = {m2l!r} but the two-pass population variance of the {K} segment products (extended precision) = {ext[1]!r} "
+                               f"(tol {tT:.3g} = 2 E s + E^2 + reduction, E = {tXY:.3g}, s = {ext[2]:.3g}; |mean|^2 = {abs(ext[0]) ** 2:.6g}, "
+                               f"u |mean|^2 = {U * abs(ext[0]) ** 2:.3g})")
+        elif not S.within("t:emp_var", abs(ev - ext[1] / K), tT / K + 4 * U * ev):
+            bad("tight-emp-var", j, f"XY_emp_var = {ev!r} but two-pass population variance / K (extended precision) = {ext[1] / K!r} "
+                                    f"(tol {tT / K + 4 * U * ev:.3g}; |mean|^2 / K = {abs(ext[0]) ** 2 / K:.6g})")
+        if K >= 2 and tT < 0.25 * U * abs(ext[0]) ** 2:                # an error of u |mean|^2 / 4 in the scatter would be seen here
+            P.hit("tight:detectable")
+            P.hit("tight:" + ("identical-segments" if ext[1] == 0.0 else "near-identical"))
+            P.nontrivial.add(("tight", src, "cross" if cross else "auto", order, str(opts.get("backend")), ext[1] == 0.0))
         if K >= 2 and M2 > 100 * tM2:
             nontriv = True
     if nontriv:
@@ -120,6 +204,108 @@ def run_case(P: C.Part, x, y, fs, opts, kind: str, single, max_bins: int = 40) -
         return
     check_result(P, res, np.asarray(x, dtype=float), None if y is None else np.asarray(y, dtype=float), fs, opts, kind,
                  "single_bin" if single else "compute_spectrum", rp, max_bins)
+
+
+# ---------------------------------------------------------------- near-identical-segment records
+def _periodic(rng: np.random.Generator, N: int, P: int, m: int, kind: str, amp: float, eps: float) -> np.ndarray:
+    """amp * (waveform of period P samples: a line with m cycles per period [+ harmonics and an offset for 'locked-wave']) + amp * eps * white noise.
+    The waveform is tabulated over ONE period and indexed by n mod P, so that segments whose starts differ by multiples of P are bit-identical
+    when eps = 0."""
+    k = np.arange(P)
+    tab = np.sin(2 * np.pi * m * k / P + float(rng.uniform(0, 2 * np.pi)))
+    if kind == "locked-wave":
+        tab = tab + float(rng.uniform(-1, 1)) + 0.3 * float(rng.uniform(0, 1)) * rng.standard_normal(P)
+    x = amp * tab[np.arange(N) % P]
+    if eps > 0:
+        x = x + amp * eps * rng.standard_normal(N)
+    return x
+
+
+def locked_case(rng: np.random.Generator, i: int, thorough: bool):
+    """Case i of the near-identical-segment stream -> (x, y, fs, opts, kind, single).
+    cross = i % 2, backend numba / numpy = (i // 2) % 2, order cycles -1, 0, 1 (every 5th round of 12 cases: 2), entry alternates single_bin / compute_spectrum,
+    relative noise floor eps: 0 (every 5th case) or log-uniform in 1e-9 .. 1e-5 (the second channel of a pair gets its own, independent floor)."""
+    cross = i % 2 == 1
+    backend = ["numba", "numpy"][(i // 2) % 2]
+    order = [-1, 0, 1][(i // 4) % 3] if (i // 12) % 5 != 4 else 2
+    single_entry = (i // 12) % 2 == 0
+    kind = LOCK_KINDS[(i + i // 4 + i // 12) % 4]
+    if kind == "dc" and order != -1:
+        kind = "locked-tone"
+    eps = 0.0 if i % 5 == 0 else float(10 ** rng.uniform(-9, -5))
+    if kind == "dc":                                        # DC is seen through a side lobe only: a lower floor keeps the scatter/mean small
+        eps *= 1e-2
+    eps2 = eps * float(10 ** rng.uniform(-1, 1))
+    amp, amp2 = float(10 ** rng.uniform(-3, 3)), float(10 ** rng.uniform(-3, 3))
+    fs = float(rng.choice([1.0, 2.0, 1000.0, float(rng.uniform(0.1, 1e4))]))
+    win, psll = [("hann", None), ("kaiser", 60.0), ("kaiser", 200.0), ("kaiser", 150.0)][(i // 3) % 4]
+    if kind == "line":
+        win, psll = "kaiser", float(rng.choice([150.0, 200.0, 250.0]))
+    opts: Dict[str, Any] = {"order": order, "win": win, "backend": backend}
+    if psll is not None:
+        opts["psll"] = psll
+    if single_entry:
+        P = int(rng.choice([3, 4, 5, 6, 8, 10, 12, 16, 20]))
+        q = int(rng.integers(1, max(2, (400 if thorough else 260) // (4 * P)) + 1)) if kind != "dc" else 1
+        L = 4 * P * q
+        olap = float(rng.choice([0.0, 0.5, 0.75]))
+        h = int(round(L * (1 - olap)))                       # a multiple of P
+        K = int(rng.choice([2, 3, 4, int(rng.integers(5, 40))]))
+        N = L + (K - 1) * h
+        if kind == "line":                                  # not commensurate: one more sample, fractional shifts
+            N += int(rng.integers(1, h))
+        opts["olap"] = olap
+        m = int(rng.integers(1, (P - 1) // 2 + 1))
+        nu = m / P
+        if kind == "dc":
+            nu = float(rng.uniform(0.6, 2.5)) / L           # DC seen through the main lobe / first side lobes
+        elif rng.random() < 0.4:
+            nu += float(rng.uniform(-0.6, 0.6)) / L         # analysed slightly off the line
+        single = {"freq": nu * fs, "L": L}
+    else:
+        N = int(rng.choice([300, 600, 1000] if not thorough else [300, 600, 1000, 1500, 2500]))
+        opts.update({"olap": float(rng.choice([0.0, 0.5, 0.75])), "Jdes": int(rng.integers(4, 13)), "Kdes": int(rng.choice([2, 5, 20])),
+                     "bmin": float(rng.choice([1.0, 2.0, 3.5])), "Lmin": int(rng.choice([1, 8, 16])), "scheduler": _an.SCHEDS[(i // 24 + i) % 4]})
+        single = None
+        P, m = 4, 1
+        try:                                                # the plan depends on (N, fs, options) only: read it off a dry run
+            plan = S.spectrum(np.zeros(N) if not cross else np.zeros((2, N)), fs, opts)
+            cand = []
+            for j in range(len(plan.f)):
+                D = np.asarray(plan.D[j], dtype=np.int64)
+                if len(D) >= 2:
+                    hg = int(np.gcd.reduce(np.diff(D)))
+                    Lj, fj = int(plan.L[j]), float(plan.f[j]) / fs
+                    sn = max(abs(math.sin(2 * np.pi * fj)), 1e-300)
+                    cand.append(((Lj + 4) * min(Lj + 1.0, 1.0 / sn) * (1 if hg >= 3 else 1e6), hg, fj, Lj))
+            if cand:
+                cand.sort()
+                _, hg, fj, Lj = cand[int(rng.integers(0, min(3, len(cand))))]
+                if hg >= 3:                                 # the line's period divides the hop of this bin
+                    P, m = hg, int(min(max(1, round(fj * hg)), (hg - 1) // 2))
+                    kind = "locked-tone" if kind == "line" else kind
+                else:                                       # no bin with a usable common hop: a line at the bin frequency itself
+                    P, m = 0, 0
+                    nu_line = fj
+                    kind = "line" if kind != "dc" else kind
+        except Exception:
+            pass
+    if kind == "dc":
+        c = float(rng.choice([-1.0, 1.0]))
+        x = amp * c * (1.0 + eps * rng.standard_normal(N)) if eps > 0 else np.full(N, amp * c)
+        y = (amp2 * (1.0 + eps2 * rng.standard_normal(N)) if eps2 > 0 else np.full(N, amp2)) if cross else None
+    elif single_entry and kind == "line":
+        t = np.arange(N)
+        x = amp * (np.sin(2 * np.pi * nu * t + float(rng.uniform(0, 6))) + eps * rng.standard_normal(N))
+        y = amp2 * (np.sin(2 * np.pi * nu * t + float(rng.uniform(0, 6))) + eps2 * rng.standard_normal(N)) if cross else None
+    elif not single_entry and P == 0:
+        t = np.arange(N)
+        x = amp * (np.sin(2 * np.pi * nu_line * t + float(rng.uniform(0, 6))) + eps * rng.standard_normal(N))
+        y = amp2 * (np.sin(2 * np.pi * nu_line * t + float(rng.uniform(0, 6))) + eps2 * rng.standard_normal(N)) if cross else None
+    else:
+        x = _periodic(rng, N, P, m, kind, amp, eps)
+        y = _periodic(rng, N, P, m, kind, amp2, eps2) if cross else None
+    return x, y, fs, opts, kind, single
 
 
 def probe(ctx, P: C.Part) -> None:
@@ -199,6 +385,30 @@ def oracle(ctx, intensive: bool = False, hints: List[Dict[str, Any]] = ()) -> C.
             o["psll"] = 80.0
         run_case(P, x0, None, 2.0, o, "offset", None)
         run_case(P, x0, y0, 2.0, o, "delayed", None)
+    # corpus (seeded defect C11c: one-pass variance in the Numba reducer): a calibration line whose period divides the segment hop, noise floor
+    # 140 dB below it, and the same line without any noise (identical segments) -- every order, auto and cross, both backends
+    r1 = np.random.default_rng(1111)
+    tt = np.arange(2100)
+    lx, ly = np.sin(2 * np.pi * 50.0 * tt / 1000.0), 0.5 * np.sin(2 * np.pi * 50.0 * tt / 1000.0 + 0.3)
+    nx, ny = r1.standard_normal(2100), r1.standard_normal(2100)
+    for k, order in enumerate((-1, 0, 1)):
+        for be in ("numba", "numpy"):
+            o = {"order": order, "olap": 0.5, "win": "hann", "backend": be}
+            for e in (1e-7, 0.0):
+                run_case(P, lx + e * nx, None, 1000.0, o, "locked-tone", {"freq": 50.0, "L": 200})
+                run_case(P, lx + e * nx, ly + e * ny, 1000.0, o, "locked-tone", {"freq": 50.0, "L": 200})
+    # near-identical-segment stream (sub-claim t is evaluated on every case of the oracle; this stream makes it sharp)
+    n_lock = ctx.scale(60, 480) * (4 if intensive else 1)
+    for i in range(n_lock):
+        if ctx.time_left() < (600 if ctx.thorough else 25) or len(P.violations) >= S.MAX_VIOL:
+            break
+        x, y, fs, opts, kind, single = locked_case(rng, i, ctx.thorough)
+        run_case(P, x, y, fs, opts, kind, single, max_bins=40)
+        if i < 2:
+            P.sample({"op": "oracle-locked", "mode": "cross" if y is not None else "auto", "kind": kind, "N": len(x), "fs": fs, "opts": opts, "single": single})
+    det = sorted(k[1:] for k in P.nontrivial if k[0] == "tight")
+    P.notes.append(f"near-identical-segment region: {P.histogram.get('tight:detectable', 0)} bins so far where an error of "
+                   f"u*|mean|^2/4 in the scatter would be seen; distinct (entry, mode, order, backend, exactly-identical): {len(det)}")
     n = ctx.scale(210, 2800) * (4 if intensive else 1)
     sizes = [8, 64, 200, 257, 600, 1000] if not ctx.thorough else [8, 16, 64, 100, 257, 600, 1000, 2048, 4000]
     for i in range(n):
